@@ -6,6 +6,8 @@ import (
 	"go/constant"
 	"go/token"
 	"go/types"
+	mbits "math/bits"
+	"strings"
 )
 
 // ---------------------------------------------------------------- symbolic bit tests
@@ -23,7 +25,54 @@ type (
 	}
 	SNot     struct{ X Sym }
 	SUnknown struct{ Why string }
+	// SBoth is `A && B` / `A || B` of two conditions that each involve the word.
+	SBoth struct {
+		Op   token.Token
+		A, B Sym
+	}
+	// SScaled is `(word >> K) & C`, kept as word & (C<<K): a constant it is
+	// compared with must be shifted by K as well.
+	SScaled struct {
+		X Sym
+		K uint
+	}
+	// SRem is the variable of a set-bit walk (`for r := word; r != 0; r &= r-1`)
+	// during the iteration in which the lowest set bit of r is bit I (W: width of
+	// the walk in bits). Form says which expression over r is meant.
+	SRem struct {
+		I, W int
+		Form int // remSelf r | remDec r-1 | remNeg -r (= ^r+1) | remInv ^r | remCleared r without its lowest set bit
+		// High: the walk goes from the highest set bit down; I is then the index
+		// of the HIGHEST set bit of r (and remCleared is r without that bit).
+		High bool
+	}
 )
+
+const (
+	remSelf = iota
+	remDec
+	remNeg
+	remInv
+	remCleared
+)
+
+func (s SBoth) String() string {
+	return "(" + s.A.String() + " " + s.Op.String() + " " + s.B.String() + ")"
+}
+func (s SScaled) String() string { return s.X.String() }
+
+func (s SRem) String() string {
+	which := "lowest"
+	if s.High {
+		which = "highest"
+	}
+	return fmt.Sprintf("rem(%s, %s bit %d)", [...]string{"r", "r-1", "-r", "^r", "r&(r-1)"}[s.Form], which, s.I)
+}
+
+// lowBit is the constant 1<<I.
+func (s SRem) lowBit() SConst {
+	return SConst{constant.Shift(constant.MakeInt64(1), token.SHL, uint(s.I))}
+}
 
 func (SWord) String() string    { return "word" }
 func (s SConst) String() string { return s.V.ExactString() }
@@ -45,6 +94,10 @@ func HasWord(s Sym) bool {
 	case SCmp:
 		return HasWord(s.A) || HasWord(s.B)
 	case SNot:
+		return HasWord(s.X)
+	case SBoth:
+		return HasWord(s.A) || HasWord(s.B)
+	case SScaled:
 		return HasWord(s.X)
 	}
 	return false
@@ -72,6 +125,33 @@ type Evaluator struct {
 	Vars   VarSource
 	Tables map[*types.Var]bool
 	depth  int
+	// root is the body of the function being interpreted (CollectBitTests sets
+	// it); yield is the consumer callback of an iterator body; wordLost says why
+	// the callee's copy of the word is not tracked.
+	root      ast.Node
+	yield     types.Object
+	wordLost  string
+	lostParam types.Object
+	// named results of the function whose body BoolResult interprets
+	named     map[types.Object]bool
+	namedList []types.Object
+}
+
+// WithResults tells the evaluator the named results of the function it is
+// about to interpret with BoolResult.
+func (ev *Evaluator) WithResults(info *types.Info, ft *ast.FuncType) *Evaluator {
+	ev.named, ev.namedList = map[types.Object]bool{}, nil
+	if ft != nil && ft.Results != nil {
+		for _, f := range ft.Results.List {
+			for _, n := range f.Names {
+				if o := info.Defs[n]; o != nil && n.Name != "_" {
+					ev.named[o] = true
+					ev.namedList = append(ev.namedList, o)
+				}
+			}
+		}
+	}
+	return ev
 }
 
 // SingleDefs returns the local variables of body that are defined once
@@ -229,9 +309,42 @@ func (ev *Evaluator) hasKey(ie *ast.IndexExpr) (bool, string) {
 	return false, ""
 }
 
+// basicOf gives the basic type t is built on; for a type parameter, the
+// common underlying type of its constraint's terms (`T ~uint32`).
+func basicOf(t types.Type) *types.Basic {
+	if tp, ok := t.(*types.TypeParam); ok {
+		iface, _ := tp.Constraint().Underlying().(*types.Interface)
+		if iface == nil {
+			return nil
+		}
+		var core *types.Basic
+		for i := 0; i < iface.NumEmbeddeds(); i++ {
+			terms := []*types.Term{}
+			switch e := iface.EmbeddedType(i).(type) {
+			case *types.Union:
+				for j := 0; j < e.Len(); j++ {
+					terms = append(terms, e.Term(j))
+				}
+			default:
+				terms = append(terms, types.NewTerm(false, e))
+			}
+			for _, tm := range terms {
+				b, ok := tm.Type().Underlying().(*types.Basic)
+				if !ok || (core != nil && core.Kind() != b.Kind()) {
+					return nil
+				}
+				core = b
+			}
+		}
+		return core
+	}
+	b, _ := t.Underlying().(*types.Basic)
+	return b
+}
+
 func isIntegerType(t types.Type) bool {
-	b, ok := t.Underlying().(*types.Basic)
-	return ok && b.Info()&types.IsInteger != 0
+	b := basicOf(t)
+	return b != nil && b.Info()&types.IsInteger != 0
 }
 
 func (ev *Evaluator) Eval(e ast.Expr) Sym {
@@ -248,6 +361,17 @@ func (ev *Evaluator) Eval(e ast.Expr) Sym {
 			}
 		}
 	}
+	// a variable the evaluator holds a binding for (first: the variable of a
+	// set-bit walk can be the callee's own copy of the word)
+	if id, ok := e.(*ast.Ident); ok {
+		o := ev.Info.Uses[id]
+		if o == nil {
+			o = ev.Info.Defs[id]
+		}
+		if s, ok := ev.Env[o]; ok && o != nil {
+			return s
+		}
+	}
 	if ev.IsWord != nil && ev.IsWord(e) {
 		return SWord{}
 	}
@@ -256,9 +380,6 @@ func (ev *Evaluator) Eval(e ast.Expr) Sym {
 		o := ev.Info.Uses[e]
 		if o == nil {
 			o = ev.Info.Defs[e]
-		}
-		if s, ok := ev.Env[o]; ok {
-			return s
 		}
 		if b, ok := ev.Bind[o]; ok {
 			v, why := ev.static(b, 0)
@@ -304,9 +425,20 @@ func (ev *Evaluator) Eval(e ast.Expr) Sym {
 			if f, ok := foldInts(e.Op, x, y); ok {
 				return f
 			}
+			if f, ok := remOp(e.Op, x, y); ok {
+				return f
+			}
+			// (word >> k) & C  ≡  word & (C << k), compared constants scaled alike
+			for _, p := range [][2]Sym{{x, y}, {y, x}} {
+				sh, isShift := p[0].(SScaled)
+				c, isConst := p[1].(SConst)
+				if _, bare := sh.X.(SWord); isShift && bare && isConst && c.V.Kind() == constant.Int && constant.Sign(c.V) >= 0 {
+					return SScaled{SAnd{SWord{}, SConst{constant.Shift(c.V, token.SHL, sh.K)}}, sh.K}
+				}
+			}
 			return SAnd{x, y}
 		case token.EQL, token.NEQ:
-			return SCmp{e.Op, ev.Eval(e.X), ev.Eval(e.Y)}
+			return cmpSym(e.Op, ev.Eval(e.X), ev.Eval(e.Y))
 		case token.GTR, token.LSS, token.GEQ, token.LEQ:
 			// on an unsigned word: x > 0, 0 < x, x >= 1 are x != 0;  x <= 0, x < 1 are x == 0
 			x, y, op := e.X, e.Y, e.Op
@@ -321,9 +453,13 @@ func (ev *Evaluator) Eval(e ast.Expr) Sym {
 						n, _ := constant.Int64Val(k.V)
 						switch {
 						case op == token.GTR && n == 0, op == token.GEQ && n == 1:
-							return SCmp{token.NEQ, ev.Eval(x), SConst{zero}}
+							return cmpSym(token.NEQ, ev.Eval(x), SConst{zero})
 						case op == token.LEQ && n == 0, op == token.LSS && n == 1:
-							return SCmp{token.EQL, ev.Eval(x), SConst{zero}}
+							return cmpSym(token.EQL, ev.Eval(x), SConst{zero})
+						case op == token.GEQ && n == 0:
+							return SConst{constant.MakeBool(true)} // an unsigned value is never negative
+						case op == token.LSS && n == 0:
+							return SConst{constant.MakeBool(false)}
 						}
 					}
 				}
@@ -340,10 +476,24 @@ func (ev *Evaluator) Eval(e ast.Expr) Sym {
 					return SConst{constant.MakeBool(b)}
 				}
 			}
+			if HasWord(x) || HasWord(y) {
+				return SBoth{e.Op, x, y}
+			}
 			return SUnknown{"operator " + e.Op.String()}
 		case token.OR, token.XOR, token.AND_NOT, token.SHL, token.SHR, token.ADD, token.SUB, token.MUL:
-			if f, ok := foldInts(e.Op, ev.Eval(e.X), ev.Eval(e.Y)); ok {
+			x, y := ev.Eval(e.X), ev.Eval(e.Y)
+			if f, ok := foldInts(e.Op, x, y); ok {
 				return f
+			}
+			if f, ok := remOp(e.Op, x, y); ok {
+				return f
+			}
+			if _, isWord := x.(SWord); isWord && e.Op == token.SHR {
+				if k, ok := y.(SConst); ok && k.V.Kind() == constant.Int {
+					if n, exact := constant.Uint64Val(k.V); exact && n < 64 {
+						return SScaled{SWord{}, uint(n)}
+					}
+				}
 			}
 		}
 		return SUnknown{"operator " + e.Op.String()}
@@ -351,13 +501,30 @@ func (ev *Evaluator) Eval(e ast.Expr) Sym {
 		if e.Op == token.NOT {
 			return SNot{ev.Eval(e.X)}
 		}
+		if r, ok := ev.Eval(e.X).(SRem); ok && r.Form == remSelf && !r.High {
+			switch e.Op {
+			case token.SUB:
+				return SRem{r.I, r.W, remNeg, false}
+			case token.XOR:
+				return SRem{r.I, r.W, remInv, false}
+			}
+		}
 		return SUnknown{"operator " + e.Op.String()}
 	case *ast.CallExpr:
 		if tv, ok := ev.Info.Types[e.Fun]; ok && tv.IsType() && len(e.Args) == 1 {
 			if isIntegerType(tv.Type) {
-				return ev.Eval(e.Args[0])
+				s := ev.Eval(e.Args[0])
+				if r, ok := s.(SRem); ok {
+					if w, unsigned := intWidth(tv.Type); !unsigned || w < r.W {
+						return SUnknown{"narrowing or signed conversion of the variable of a set-bit walk"}
+					}
+				}
+				return s
 			}
 			return SUnknown{"conversion"}
+		}
+		if s, ok := ev.bitsCall(e); ok {
+			return s
 		}
 		if isBuiltin(ev.Info, e, "len") && len(e.Args) == 1 {
 			if ct, why := ev.Table(e.Args[0]); why == "" {
@@ -368,6 +535,30 @@ func (ev *Evaluator) Eval(e ast.Expr) Sym {
 		return ev.inline(e)
 	}
 	return SUnknown{fmt.Sprintf("%T", e)}
+}
+
+// cmpSym builds a comparison; a scaled operand (see SScaled) scales the
+// constant it is compared with.
+func cmpSym(op token.Token, a, b Sym) Sym {
+	for i, p := range [][2]Sym{{a, b}, {b, a}} {
+		sc, isScaled := p[0].(SScaled)
+		if !isScaled {
+			continue
+		}
+		if _, bare := sc.X.(SWord); bare {
+			break // a bare shifted word is not a mask test
+		}
+		c, isConst := p[1].(SConst)
+		if !isConst || c.V.Kind() != constant.Int || constant.Sign(c.V) < 0 {
+			return SCmp{op, SUnknown{"a shifted word compared with a non-constant"}, p[1]}
+		}
+		scaled := SConst{constant.Shift(c.V, token.SHL, sc.K)}
+		if i == 0 {
+			return SCmp{op, sc.X, scaled}
+		}
+		return SCmp{op, scaled, sc.X}
+	}
+	return SCmp{op, a, b}
 }
 
 // constOf turns a statically resolved value into a constant symbol.
@@ -397,6 +588,119 @@ func (ev *Evaluator) constOf(v Val, what string) Sym {
 	return SUnknown{what + " is not an integer constant"}
 }
 
+// intWidth gives the width in bits of an integer type (int, uint, uintptr: 64).
+func intWidth(t types.Type) (bits int, unsigned bool) {
+	b := basicOf(t)
+	if b == nil || b.Info()&types.IsInteger == 0 {
+		return 0, false
+	}
+	w := map[types.BasicKind]int{types.Int8: 8, types.Uint8: 8, types.Int16: 16, types.Uint16: 16, types.Int32: 32, types.Uint32: 32,
+		types.Int64: 64, types.Uint64: 64, types.Int: 64, types.Uint: 64, types.Uintptr: 64}[b.Kind()]
+	return w, b.Info()&types.IsUnsigned != 0
+}
+
+// bitsCall folds math/bits.TrailingZeros* / Len* / OnesCount* of a constant,
+// and TrailingZeros* of the variable of a set-bit walk (the index of the bit
+// the current iteration stands for).
+func (ev *Evaluator) bitsCall(call *ast.CallExpr) (Sym, bool) {
+	fn := StaticCallee(ev.Info, call)
+	if fn == nil || fn.Pkg() == nil || fn.Pkg().Path() != "math/bits" || len(call.Args) != 1 {
+		return nil, false
+	}
+	sig, _ := fn.Type().(*types.Signature)
+	if sig == nil || sig.Params().Len() != 1 {
+		return nil, false
+	}
+	w, _ := intWidth(sig.Params().At(0).Type())
+	name := strings.TrimRight(fn.Name(), "0123456789")
+	switch a := ev.Eval(call.Args[0]).(type) {
+	case SRem:
+		if name == "TrailingZeros" && a.Form == remSelf && w >= a.W && !a.High {
+			return SConst{constant.MakeInt64(int64(a.I))}, true
+		}
+		if name == "Len" && a.Form == remSelf && a.High {
+			return SConst{constant.MakeInt64(int64(a.I + 1))}, true
+		}
+		if name == "LeadingZeros" && a.Form == remSelf && a.High && w >= a.W {
+			return SConst{constant.MakeInt64(int64(w - 1 - a.I))}, true
+		}
+	case SConst:
+		u, ok := constant.Uint64Val(a.V)
+		if a.V.Kind() != constant.Int || !ok || w == 0 {
+			break
+		}
+		switch name {
+		case "TrailingZeros":
+			if u == 0 {
+				return SConst{constant.MakeInt64(int64(w))}, true
+			}
+			return SConst{constant.MakeInt64(int64(mbits.TrailingZeros64(u)))}, true
+		case "Len":
+			return SConst{constant.MakeInt64(int64(mbits.Len64(u)))}, true
+		case "OnesCount":
+			return SConst{constant.MakeInt64(int64(mbits.OnesCount64(u)))}, true
+		}
+	}
+	return SUnknown{"math/bits." + fn.Name() + " of a non-constant"}, true
+}
+
+// remOp reduces an operation on the variable r of a set-bit walk: r & -r and
+// r &^ (r-1) are the lowest set bit (a constant in each iteration), r & (r-1)
+// and r ^ / - / &^ that bit are r without it.
+func remOp(op token.Token, x, y Sym) (Sym, bool) {
+	rx, okx := x.(SRem)
+	ry, oky := y.(SRem)
+	cx, cokx := x.(SConst)
+	cy, coky := y.(SConst)
+	is := func(c SConst, v constant.Value) bool {
+		return c.V.Kind() == constant.Int && constant.Compare(c.V, token.EQL, v)
+	}
+	one := constant.MakeInt64(1)
+	pair := func(a, b, p, q int) bool { return (a == p && b == q) || (a == q && b == p) }
+	switch {
+	case okx && oky && rx.I == ry.I && rx.W == ry.W && !rx.High && !ry.High:
+		a, b := rx.Form, ry.Form
+		switch op {
+		case token.AND:
+			if pair(a, b, remSelf, remNeg) {
+				return rx.lowBit(), true
+			}
+			if pair(a, b, remSelf, remDec) {
+				return SRem{rx.I, rx.W, remCleared, false}, true
+			}
+		case token.AND_NOT:
+			if a == remSelf && b == remDec {
+				return rx.lowBit(), true
+			}
+		case token.XOR:
+			if pair(a, b, remSelf, remCleared) {
+				return rx.lowBit(), true
+			}
+		case token.SUB:
+			if a == remSelf && b == remCleared {
+				return rx.lowBit(), true
+			}
+		}
+	case okx && coky:
+		switch {
+		case rx.Form == remSelf && op == token.SUB && is(cy, one) && !rx.High:
+			return SRem{rx.I, rx.W, remDec, false}, true
+		case rx.Form == remSelf && (op == token.SUB || op == token.XOR || op == token.AND_NOT) && is(cy, rx.lowBit().V):
+			return SRem{rx.I, rx.W, remCleared, rx.High}, true
+		case rx.Form == remInv && op == token.ADD && is(cy, one) && !rx.High:
+			return SRem{rx.I, rx.W, remNeg, false}, true
+		}
+	case cokx && oky:
+		switch {
+		case ry.Form == remInv && op == token.ADD && is(cx, one) && !ry.High:
+			return SRem{ry.I, ry.W, remNeg, false}, true
+		case ry.Form == remSelf && op == token.XOR && is(cx, ry.lowBit().V):
+			return SRem{ry.I, ry.W, remCleared, ry.High}, true
+		}
+	}
+	return nil, false
+}
+
 // foldInts folds an integer operation on two constants.
 func foldInts(op token.Token, x, y Sym) (Sym, bool) {
 	a, ok1 := x.(SConst)
@@ -421,114 +725,389 @@ func (ev *Evaluator) inline(call *ast.CallExpr) Sym {
 	if ev.Source == nil || ev.depth >= 3 {
 		return SUnknown{"call"}
 	}
-	fn := StaticCallee(ev.Info, call)
-	if fn == nil {
-		return SUnknown{"dynamic call"}
-	}
-	fd, info := ev.Source(fn)
-	if fd == nil || fd.Body == nil || info == nil {
-		return SUnknown{"call to " + fn.FullName()}
-	}
-	sig := fn.Type().(*types.Signature)
-	env := map[types.Object]Sym{}
-	if sig.Recv() != nil {
-		sel, ok := ast.Unparen(call.Fun).(*ast.SelectorExpr)
-		if !ok {
-			return SUnknown{"method value"}
-		}
-		if fd.Recv != nil && len(fd.Recv.List) == 1 && len(fd.Recv.List[0].Names) == 1 {
-			if o := info.Defs[fd.Recv.List[0].Names[0]]; o != nil {
-				env[o] = ev.Eval(sel.X)
+	fun := call.Fun
+	if ix, ok := ast.Unparen(fun).(*ast.IndexExpr); ok { // explicit instantiation f[T](…)
+		if tv, ok := ev.Info.Types[ix.X]; ok && tv.Type != nil {
+			if _, isSig := tv.Type.Underlying().(*types.Signature); isSig {
+				fun = ix.X
 			}
 		}
 	}
-	i := 0
-	for _, f := range fd.Type.Params.List {
-		for _, n := range f.Names {
-			if i < len(call.Args) {
-				if o := info.Defs[n]; o != nil {
-					env[o] = ev.Eval(call.Args[i])
+	if ix, ok := ast.Unparen(fun).(*ast.IndexListExpr); ok {
+		fun = ix.X
+	}
+	// what is called: a declared function / method, or a function value that
+	// resolves statically (a field of a bound table row, a once-defined local):
+	// a method expression T.M, a function name, a function literal
+	var (
+		info   *types.Info
+		ftype  *ast.FuncType
+		body   *ast.BlockStmt
+		recv   *ast.FieldList
+		name   string
+		args   []Sym
+		method bool
+	)
+	for _, a := range call.Args {
+		args = append(args, ev.Eval(a))
+	}
+	byFunc := func(fn *types.Func) string {
+		fd, finfo := ev.Source(fn)
+		if fd == nil || fd.Body == nil || finfo == nil {
+			return "call to " + fn.FullName()
+		}
+		info, ftype, body, recv, name = finfo, fd.Type, fd.Body, fd.Recv, fn.Name()
+		method = fn.Type().(*types.Signature).Recv() != nil
+		if fn.Type().(*types.Signature).Variadic() {
+			return "variadic call"
+		}
+		return ""
+	}
+	if fn := StaticCallee(ev.Info, &ast.CallExpr{Fun: fun}); fn != nil {
+		if why := byFunc(fn); why != "" {
+			return SUnknown{why}
+		}
+		if method {
+			sel, ok := ast.Unparen(fun).(*ast.SelectorExpr)
+			if !ok {
+				return SUnknown{"method value"}
+			}
+			// T.M(x, …) passes the receiver as the first argument already
+			if tv, isType := ev.Info.Types[sel.X]; !(isType && tv.IsType()) {
+				args = append([]Sym{ev.Eval(sel.X)}, args...)
+			}
+		}
+	} else {
+		if tv, ok := ev.Info.Types[fun]; ok && (tv.IsType() || tv.IsBuiltin()) {
+			return SUnknown{"conversion or builtin"}
+		}
+		v, why := ev.Static(fun)
+		if why != "" {
+			return SUnknown{"dynamic call"}
+		}
+		switch f := ast.Unparen(v.E).(type) {
+		case *ast.FuncLit:
+			info, ftype, body, name = v.Info, f.Type, f.Body, "a function literal"
+		case *ast.Ident:
+			fn, _ := v.Info.Uses[f].(*types.Func)
+			if fn == nil {
+				return SUnknown{"dynamic call"}
+			}
+			if why := byFunc(fn); why != "" {
+				return SUnknown{why}
+			}
+		case *ast.SelectorExpr:
+			fn, _ := v.Info.Uses[f.Sel].(*types.Func)
+			if fn == nil {
+				return SUnknown{"dynamic call"}
+			}
+			if why := byFunc(fn); why != "" {
+				return SUnknown{why}
+			}
+			if method {
+				// only the method expression T.M (receiver passed as first argument); a
+				// method value x.M has its receiver bound elsewhere
+				if tv, ok := v.Info.Types[f.X]; !ok || !tv.IsType() {
+					return SUnknown{"method value"}
 				}
 			}
-			i++
+		default:
+			return SUnknown{"dynamic call"}
 		}
 	}
-	if sig.Variadic() || i != len(call.Args) {
+	var params []types.Object
+	if method && recv != nil && len(recv.List) == 1 {
+		if len(recv.List[0].Names) == 1 {
+			params = append(params, info.Defs[recv.List[0].Names[0]])
+		} else {
+			params = append(params, nil)
+		}
+	}
+	if ftype.Params != nil {
+		for _, f := range ftype.Params.List {
+			if _, variadic := f.Type.(*ast.Ellipsis); variadic {
+				return SUnknown{"variadic call"}
+			}
+			if len(f.Names) == 0 {
+				params = append(params, nil)
+			}
+			for _, n := range f.Names {
+				params = append(params, info.Defs[n])
+			}
+		}
+	}
+	if len(params) != len(args) {
 		return SUnknown{"call arity"}
 	}
-	sub := &Evaluator{Info: info, Env: env, Defs: SingleDefs(info, fd.Body), OkDefs: CommaOkDefs(info, fd.Body), Source: ev.Source, Vars: ev.Vars, Tables: ev.Tables, depth: ev.depth + 1}
-	s, why := sub.BoolResult(fd.Body)
+	env := map[types.Object]Sym{}
+	for i, p := range params {
+		if p != nil {
+			if assigned(info, body, p) {
+				return SUnknown{"the callee " + name + " changes its parameter " + p.Name()}
+			}
+			env[p] = args[i]
+		}
+	}
+	sub := &Evaluator{Info: info, Env: env, Defs: SingleDefs(info, body), OkDefs: CommaOkDefs(info, body), Source: ev.Source, Vars: ev.Vars, Tables: ev.Tables, depth: ev.depth + 1}
+	sub.WithResults(info, ftype)
+	s, why := sub.BoolResult(body)
 	if s == nil {
-		return SUnknown{"helper " + fn.Name() + ": " + why}
+		return SUnknown{"helper " + name + ": " + why}
 	}
 	return s
 }
 
-// BoolResult computes the symbolic value a function body returns, for bodies of
-// the forms `[defs;] return e` and `[defs;] if c { return b } [else { return !b }]; [return !b]`.
+// BoolResult computes the symbolic value a function body returns. Every
+// control path is followed (if / else, tagless switch, early returns, a named
+// or local result variable assigned on the way, a final return); when all paths
+// return boolean constants and are selected by ONE condition T the result is T
+// or !T; a body that is `[defs;] return e` yields e. Paths selected by several
+// conditions on the word yield their conjunction (SBoth), which no caller
+// accepts as a test of one bit.
 func (ev *Evaluator) BoolResult(body *ast.BlockStmt) (Sym, string) {
-	var stmts []ast.Stmt
-	for _, s := range body.List {
+	type lit struct {
+		s   Sym
+		neg bool
+	}
+	type path struct {
+		conds []lit
+		res   Sym
+	}
+	type state struct {
+		conds []lit
+		vars  map[types.Object]Sym // result variables assigned on this path
+	}
+	var paths []path
+	why := ""
+	fail := func(f string, a ...any) {
+		if why == "" {
+			why = fmt.Sprintf(f, a...)
+		}
+	}
+	// result variables: named results and locals declared `var x bool` / `x := false`
+	resultVar := func(o types.Object) bool {
+		v, ok := o.(*types.Var)
+		if !ok || v.IsField() {
+			return false
+		}
+		b, ok := v.Type().Underlying().(*types.Basic)
+		return ok && b.Kind() == types.Bool && body.Pos() <= v.Pos() && v.Pos() <= body.End() || ev.named[o]
+	}
+	evalIn := func(st state, e ast.Expr) Sym {
+		if id, ok := ast.Unparen(e).(*ast.Ident); ok {
+			if s, ok := st.vars[ev.Info.Uses[id]]; ok {
+				return s
+			}
+		}
+		return ev.Eval(e)
+	}
+	with := func(st state, l lit) state {
+		n := state{conds: append(append([]lit{}, st.conds...), l), vars: st.vars}
+		return n
+	}
+	set := func(st state, o types.Object, s Sym) state {
+		vars := map[types.Object]Sym{}
+		for k, v := range st.vars {
+			vars[k] = v
+		}
+		vars[o] = s
+		return state{conds: st.conds, vars: vars}
+	}
+	var walk func(list []ast.Stmt, sts []state) []state
+	var stmt func(s ast.Stmt, st state) []state
+	walk = func(list []ast.Stmt, sts []state) []state {
+		for _, s := range list {
+			var next []state
+			for _, st := range sts {
+				next = append(next, stmt(s, st)...)
+			}
+			if len(next) > 64 {
+				fail("too many control paths")
+				return nil
+			}
+			sts = next
+		}
+		return sts
+	}
+	stmt = func(s ast.Stmt, st state) []state {
 		switch s := s.(type) {
+		case *ast.EmptyStmt:
+			return []state{st}
+		case *ast.DeclStmt:
+			if gd, ok := s.Decl.(*ast.GenDecl); ok && gd.Tok == token.VAR {
+				for _, sp := range gd.Specs {
+					if vs, ok := sp.(*ast.ValueSpec); ok && len(vs.Values) == 0 {
+						for _, n := range vs.Names {
+							if o := ev.Info.Defs[n]; o != nil && resultVar(o) {
+								st = set(st, o, SConst{constant.MakeBool(false)})
+							}
+						}
+					}
+				}
+			}
+			return []state{st}
 		case *ast.AssignStmt:
 			if s.Tok == token.DEFINE {
-				continue
+				return []state{st} // once-defined locals are resolved where they are used
 			}
-		case *ast.DeclStmt:
-			continue
-		case *ast.EmptyStmt:
-			continue
-		}
-		stmts = append(stmts, s)
-	}
-	boolConst := func(s ast.Stmt) (bool, bool) {
-		if b, ok := s.(*ast.BlockStmt); ok {
-			if len(b.List) != 1 {
-				return false, false
-			}
-			s = b.List[0]
-		}
-		r, ok := s.(*ast.ReturnStmt)
-		if !ok || len(r.Results) != 1 {
-			return false, false
-		}
-		tv, ok := ev.Info.Types[r.Results[0]]
-		if !ok || tv.Value == nil || tv.Value.Kind() != constant.Bool {
-			return false, false
-		}
-		return constant.BoolVal(tv.Value), true
-	}
-	switch len(stmts) {
-	case 1:
-		if r, ok := stmts[0].(*ast.ReturnStmt); ok && len(r.Results) == 1 {
-			return ev.Eval(r.Results[0]), ""
-		}
-		if is, ok := stmts[0].(*ast.IfStmt); ok && is.Init == nil && is.Else != nil {
-			b1, ok1 := boolConst(is.Body)
-			b2, ok2 := boolConst(is.Else)
-			if ok1 && ok2 && b1 != b2 {
-				c := ev.Eval(is.Cond)
-				if !b1 {
-					c = SNot{c}
+			if s.Tok == token.ASSIGN && len(s.Lhs) == 1 && len(s.Rhs) == 1 {
+				if id, ok := ast.Unparen(s.Lhs[0]).(*ast.Ident); ok {
+					if o := ev.Info.Uses[id]; o != nil && resultVar(o) {
+						return []state{set(st, o, evalIn(st, s.Rhs[0]))}
+					}
 				}
-				return c, ""
 			}
-		}
-	case 2:
-		is, ok := stmts[0].(*ast.IfStmt)
-		if ok && is.Init == nil && is.Else == nil {
-			b1, ok1 := boolConst(is.Body)
-			b2, ok2 := boolConst(stmts[1])
-			if ok1 && ok2 && b1 != b2 {
-				c := ev.Eval(is.Cond)
-				if !b1 {
-					c = SNot{c}
+			fail("assignment `%s` to something other than a boolean result variable", stmtString(s))
+			return nil
+		case *ast.ReturnStmt:
+			switch {
+			case len(s.Results) == 1:
+				paths = append(paths, path{st.conds, evalIn(st, s.Results[0])})
+			case len(s.Results) == 0 && len(ev.namedList) == 1:
+				r, ok := st.vars[ev.namedList[0]]
+				if !ok {
+					r = SConst{constant.MakeBool(false)}
 				}
-				return c, ""
+				paths = append(paths, path{st.conds, r})
+			default:
+				fail("a return that is not a single boolean")
+			}
+			return nil
+		case *ast.BlockStmt:
+			return walk(s.List, []state{st})
+		case *ast.IfStmt:
+			if s.Init != nil {
+				if as, ok := s.Init.(*ast.AssignStmt); !ok || as.Tok != token.DEFINE {
+					fail("if with an initialiser that is not a definition")
+					return nil
+				}
+			}
+			c := evalIn(st, s.Cond)
+			if b, ok := boolOf(c); ok {
+				if b {
+					return walk(s.Body.List, []state{st})
+				}
+				if s.Else == nil {
+					return []state{st}
+				}
+				return stmt(s.Else, st)
+			}
+			out := walk(s.Body.List, []state{with(st, lit{c, false})})
+			if s.Else == nil {
+				return append(out, with(st, lit{c, true}))
+			}
+			return append(out, stmt(s.Else, with(st, lit{c, true}))...)
+		case *ast.SwitchStmt:
+			if s.Init != nil || s.Tag != nil {
+				if tv, ok := ev.Info.Types[s.Tag]; s.Init != nil || !ok || tv.Value == nil || tv.Value.Kind() != constant.Bool || !constant.BoolVal(tv.Value) {
+					fail("a switch that is not `switch { case cond: … }`")
+					return nil
+				}
+			}
+			var out []state
+			var def *ast.CaseClause
+			cur := st
+			for _, cl := range s.Body.List {
+				cc := cl.(*ast.CaseClause)
+				if cc.List == nil {
+					def = cc
+					continue
+				}
+				if len(cc.List) != 1 {
+					fail("a case with several conditions")
+					return nil
+				}
+				for _, b := range cc.Body {
+					if br, ok := b.(*ast.BranchStmt); ok {
+						fail("%s inside a switch", br.Tok)
+						return nil
+					}
+				}
+				c := evalIn(cur, cc.List[0])
+				out = append(out, walk(cc.Body, []state{with(cur, lit{c, false})})...)
+				cur = with(cur, lit{c, true})
+			}
+			if def != nil {
+				return append(out, walk(def.Body, []state{cur})...)
+			}
+			return append(out, cur)
+		}
+		fail("statement %T is not interpreted", s)
+		return nil
+	}
+	rest := walk(body.List, []state{{vars: map[types.Object]Sym{}}})
+	if why != "" {
+		return nil, why
+	}
+	if len(rest) > 0 {
+		return nil, "control can reach the end of the body without a return"
+	}
+	if len(paths) == 0 {
+		return nil, "no return"
+	}
+	if len(paths) == 1 && len(paths[0].conds) == 0 {
+		return paths[0].res, ""
+	}
+	// distinct conditions
+	var conds []Sym
+	keyOf := map[string]int{}
+	for _, p := range paths {
+		for _, l := range p.conds {
+			if _, ok := keyOf[l.s.String()]; !ok {
+				keyOf[l.s.String()] = len(conds)
+				conds = append(conds, l.s)
 			}
 		}
 	}
-	return nil, "body is not `return e` nor `if c { return true }; return false`"
+	if len(conds) == 1 {
+		var onTrue, onFalse Sym
+		for _, p := range paths {
+			neg := p.conds[0].neg
+			consistent := true
+			for _, l := range p.conds {
+				if l.neg != neg {
+					consistent = false
+				}
+			}
+			if !consistent {
+				continue // T && !T: dead
+			}
+			if neg && onFalse == nil {
+				onFalse = p.res
+			} else if !neg && onTrue == nil {
+				onTrue = p.res
+			}
+		}
+		t, ok1 := boolOf(onTrue)
+		f, ok2 := boolOf(onFalse)
+		switch {
+		case onTrue == nil || onFalse == nil:
+		case ok1 && ok2 && t != f:
+			if t {
+				return conds[0], ""
+			}
+			return SNot{conds[0]}, ""
+		case ok1 && ok2:
+			return SConst{constant.MakeBool(t)}, "" // the same constant either way
+		case ok1 && !t:
+			// if T { return false }; return e   ≡  !T && e
+			return SBoth{token.LAND, SNot{conds[0]}, onFalse}, ""
+		case ok2 && !f:
+			// if T { return e }; return false  ≡  T && e
+			return SBoth{token.LAND, conds[0], onTrue}, ""
+		case ok1 && t:
+			return SBoth{token.LOR, conds[0], onFalse}, ""
+		case ok2 && f:
+			return SBoth{token.LOR, SNot{conds[0]}, onTrue}, ""
+		}
+		return nil, "the paths of the body do not reduce to one condition"
+	}
+	// several conditions: their combination (never a test of one bit)
+	var all Sym = conds[0]
+	for _, c := range conds[1:] {
+		all = SBoth{token.LAND, all, c}
+	}
+	return all, ""
 }
 
 // MaskTest is the normal form `word & Mask ⋈ 0|Mask`.
@@ -559,7 +1138,7 @@ func (e *MaskErr) Error() string { return e.Msg }
 
 func hasUnknown(s Sym) bool {
 	switch s := s.(type) {
-	case SUnknown:
+	case SUnknown, SRem:
 		return true
 	case SAnd:
 		return hasUnknown(s.A) || hasUnknown(s.B)
@@ -567,9 +1146,16 @@ func hasUnknown(s Sym) bool {
 		return hasUnknown(s.A) || hasUnknown(s.B)
 	case SNot:
 		return hasUnknown(s.X)
+	case SBoth:
+		return hasUnknown(s.A) || hasUnknown(s.B)
+	case SScaled:
+		return hasUnknown(s.X)
 	}
 	return false
 }
+
+// HasUnknown reports whether s contains something the evaluator could not interpret.
+func HasUnknown(s Sym) bool { return hasUnknown(s) }
 
 func maskErr(s Sym, f string, a ...any) *MaskErr {
 	return &MaskErr{Msg: fmt.Sprintf(f, a...), Undecided: hasUnknown(s)}
@@ -580,6 +1166,13 @@ func maskErr(s Sym, f string, a ...any) *MaskErr {
 func AsMaskTest(s Sym) (*MaskTest, *MaskErr) {
 	s0 := s
 	switch s := s.(type) {
+	case SBoth:
+		ta, ea := AsMaskTest(s.A)
+		tb, eb := AsMaskTest(s.B)
+		if ea == nil && eb == nil && ta.Mask != nil && tb.Mask != nil && !constant.Compare(ta.Mask, token.EQL, tb.Mask) {
+			return nil, &MaskErr{Msg: fmt.Sprintf("tests of two different masks (%s, %s) are combined with %s: the result depends on more than one bit", hex(ta.Mask), hex(tb.Mask), s.Op)}
+		}
+		return nil, &MaskErr{Msg: fmt.Sprintf("the test of the word is combined with another condition: %s", s), Undecided: true}
 	case SNot:
 		m, err := AsMaskTest(s.X)
 		if err != nil {
@@ -683,12 +1276,42 @@ type BitTest struct {
 	Names    []string         // constant strings appended in the body
 	Appended []types.Object   // variables appended in the body (range key / value)
 	Values   []constant.Value // integer constants appended in the body (a decomposer into flag values)
+	Emits    []Emit           // everything reported (appended, written, yielded), in order
 	Acc      []string         // renderings of the accumulators appended to
 	HasElse  bool
 	Other    int      // statements in the body that are not appends
 	Row      string   // the table row / iteration the test was instantiated for ("" outside loops)
 	Guard    bool     // written as `if !test { continue }` followed by the appends
 	Under    []string // enclosing constructs that make the test conditional and that the analysis does not interpret
+	// Implicit: the test is not written out; it is the condition under which a
+	// loop over the set bits of the word (or over what another decomposer of the
+	// word reports) runs the iteration at all. If is then a synthetic statement
+	// that carries the loop's position and condition for diagnostics.
+	Implicit bool
+	// Cut: in the iteration of a walk over the set bits that stands for this
+	// bit, the walk is left ("return" / "break"): every higher bit goes
+	// unreported whenever this one is set.
+	Cut string
+	// RowConds: conditions on the row alone (is the bit named?) that were decided
+	// while the body was interpreted. A test that reports nothing because such a
+	// condition rules the row out is dropped: the iteration does nothing for that bit.
+	RowConds int
+	// Opaque: statements of the body that hand the reported data to a module
+	// function / function value the analysis does not interpret (counted in Other).
+	Opaque []string
+}
+
+// vacuous: the test reports nothing, does nothing else, and a condition on the
+// row alone explains why (`if name, ok := T[bit]; ok { … }` for an unnamed bit).
+func (bt *BitTest) vacuous() bool {
+	return len(bt.Emits) == 0 && len(bt.Appended) == 0 && bt.Other == 0 && bt.Cut == "" && bt.RowConds > 0 && !bt.HasElse
+}
+
+// Emit is one value a test reports: an integer constant or a constant string.
+type Emit struct {
+	Int   constant.Value
+	Str   string
+	IsStr bool
 }
 
 // Decomp is what CollectBitTests finds in one function body.
@@ -698,6 +1321,11 @@ type Decomp struct {
 	Loops        []*Unrolled     // loops met on the way (resolved statically or not)
 	Helpers      []*ast.FuncDecl // module functions the flag word is handed to, whose tests are included
 	Problems     []Problem       // control flow that can skip tests or rows (break, continue, return inside a loop …)
+	// Escapes: places where the flag word flows into something the analysis did
+	// not follow (a loop of a shape it does not model, a call it did not enter,
+	// a function literal). The tests listed are then only PART of the
+	// decomposition: "bit never tested" cannot be concluded.
+	Escapes []Problem
 }
 
 // Problem is a construct that keeps the analysis from deciding a decomposer.
@@ -717,12 +1345,240 @@ func isContinue(b *ast.BlockStmt) bool {
 	return ok && br.Tok == token.CONTINUE && br.Label == nil
 }
 
+// mentionsWord reports whether the flag word (under the evaluator's current
+// bindings) occurs inside n.
+func (ev *Evaluator) mentionsWord(n ast.Node) bool {
+	found := false
+	ast.Inspect(n, func(x ast.Node) bool {
+		if found {
+			return false
+		}
+		switch e := x.(type) {
+		case *ast.Ident:
+			o := ev.Info.Uses[e]
+			if s, ok := ev.Env[o]; ok && o != nil {
+				if _, isWord := s.(SWord); isWord {
+					found = true
+				}
+				return false
+			}
+			if ev.IsWord != nil && ev.IsWord(e) {
+				found = true
+			}
+		case *ast.SelectorExpr:
+			if ev.IsWord != nil && ev.IsWord(e) {
+				found = true
+			}
+		}
+		return !found
+	})
+	return found
+}
+
+// pureExpr: evaluating e has no effect (no calls but conversions, len / cap /
+// min / max and math/bits; no function literals, no receives).
+func pureExpr(info *types.Info, e ast.Expr) bool {
+	pure := true
+	ast.Inspect(e, func(x ast.Node) bool {
+		switch x := x.(type) {
+		case *ast.FuncLit:
+			pure = false
+		case *ast.UnaryExpr:
+			if x.Op == token.ARROW {
+				pure = false
+			}
+		case *ast.CallExpr:
+			if tv, ok := info.Types[x.Fun]; ok && tv.IsType() {
+				return true
+			}
+			if isBuiltin(info, x, "len") || isBuiltin(info, x, "cap") || isBuiltin(info, x, "min") || isBuiltin(info, x, "max") {
+				return true
+			}
+			if fn := StaticCallee(info, x); fn != nil && fn.Pkg() != nil && fn.Pkg().Path() == "math/bits" {
+				return true
+			}
+			pure = false
+		}
+		return pure
+	})
+	return pure
+}
+
+// pureDefine: s is `x, y := e…` / `var x = e` with effect-free operands.
+func pureDefine(info *types.Info, s ast.Stmt) bool {
+	switch s := s.(type) {
+	case *ast.AssignStmt:
+		if s.Tok != token.DEFINE {
+			return false
+		}
+		for _, r := range s.Rhs {
+			if !pureExpr(info, r) {
+				return false
+			}
+		}
+		return true
+	case *ast.DeclStmt:
+		gd, ok := s.Decl.(*ast.GenDecl)
+		if !ok || gd.Tok != token.VAR {
+			return false
+		}
+		for _, sp := range gd.Specs {
+			vs, ok := sp.(*ast.ValueSpec)
+			if !ok {
+				return false
+			}
+			for _, v := range vs.Values {
+				if !pureExpr(info, v) {
+					return false
+				}
+			}
+		}
+		return true
+	}
+	return false
+}
+
+// stringOrZero resolves e to the constant string it denotes; an element a
+// constant table does not have is its zero value, the empty string.
+func (ev *Evaluator) stringOrZero(e ast.Expr) (string, bool) {
+	if s, ok := ev.StringOf(e); ok {
+		return s, true
+	}
+	tv, ok := ev.Info.Types[e]
+	if !ok || tv.Type == nil {
+		return "", false
+	}
+	if b, ok := tv.Type.Underlying().(*types.Basic); !ok || b.Info()&types.IsString == 0 {
+		return "", false
+	}
+	switch ast.Unparen(e).(type) {
+	case *ast.Ident, *ast.SelectorExpr, *ast.IndexExpr:
+	default:
+		return "", false
+	}
+	if _, why := ev.Static(e); strings.HasSuffix(why, zeroValueSuffix) {
+		return "", true
+	}
+	return "", false
+}
+
+// constCond decides a condition that does not depend on the word but only on
+// the current row bindings: membership of the row's key in a constant table,
+// `name != ""` / `len(name) > 0` of a name looked up in one, comparisons of
+// constants.
+func (ev *Evaluator) constCond(e ast.Expr) (bool, bool) {
+	e = ast.Unparen(e)
+	if b, ok := boolOf(ev.Eval(e)); ok {
+		return b, true
+	}
+	switch e := e.(type) {
+	case *ast.UnaryExpr:
+		if e.Op == token.NOT {
+			b, ok := ev.constCond(e.X)
+			return !b, ok
+		}
+	case *ast.BinaryExpr:
+		switch e.Op {
+		case token.LAND, token.LOR:
+			x, okx := ev.constCond(e.X)
+			y, oky := ev.constCond(e.Y)
+			switch {
+			case okx && oky:
+				if e.Op == token.LAND {
+					return x && y, true
+				}
+				return x || y, true
+			case okx && x != (e.Op == token.LAND):
+				return x, true
+			case oky && y != (e.Op == token.LAND):
+				return y, true
+			}
+		case token.EQL, token.NEQ, token.GTR, token.LSS, token.GEQ, token.LEQ:
+			// integers
+			x, okx := ev.Eval(e.X).(SConst)
+			y, oky := ev.Eval(e.Y).(SConst)
+			if okx && oky && x.V.Kind() == constant.Int && y.V.Kind() == constant.Int {
+				return constant.Compare(x.V, e.Op, y.V), true
+			}
+			// strings
+			if e.Op == token.EQL || e.Op == token.NEQ {
+				a, oka := ev.stringOrZero(e.X)
+				b, okb := ev.stringOrZero(e.Y)
+				if oka && okb {
+					return (a == b) == (e.Op == token.EQL), true
+				}
+			}
+			// len(name) ⋈ k
+			for i, p := range [][2]ast.Expr{{e.X, e.Y}, {e.Y, e.X}} {
+				call, ok := ast.Unparen(p[0]).(*ast.CallExpr)
+				if !ok || !isBuiltin(ev.Info, call, "len") || len(call.Args) != 1 {
+					continue
+				}
+				sv, ok := ev.stringOrZero(call.Args[0])
+				k, okk := ev.Eval(p[1]).(SConst)
+				if !ok || !okk || k.V.Kind() != constant.Int {
+					continue
+				}
+				l, r := constant.MakeInt64(int64(len(sv))), k.V
+				if i == 1 {
+					l, r = r, l
+				}
+				return constant.Compare(l, e.Op, r), true
+			}
+		}
+	}
+	return false, false
+}
+
+// yieldStmt recognises what an iterator body hands to its consumer:
+// `if !yield(a…) { return }` or `yield(a…)`.
+func (ev *Evaluator) yieldStmt(st ast.Stmt) (args []ast.Expr, ret ast.Stmt, ok bool) {
+	if ev.yield == nil {
+		return nil, nil, false
+	}
+	isYield := func(e ast.Expr) *ast.CallExpr {
+		call, ok := ast.Unparen(e).(*ast.CallExpr)
+		if !ok {
+			return nil
+		}
+		id, ok := ast.Unparen(call.Fun).(*ast.Ident)
+		if !ok || ev.Info.Uses[id] != ev.yield {
+			return nil
+		}
+		return call
+	}
+	switch st := st.(type) {
+	case *ast.ExprStmt:
+		if call := isYield(st.X); call != nil {
+			return call.Args, nil, true
+		}
+	case *ast.IfStmt:
+		if st.Init != nil || st.Else != nil || len(st.Body.List) != 1 {
+			return nil, nil, false
+		}
+		rs, isRet := st.Body.List[0].(*ast.ReturnStmt)
+		not, isNot := ast.Unparen(st.Cond).(*ast.UnaryExpr)
+		if !isRet || len(rs.Results) != 0 || !isNot || not.Op != token.NOT {
+			return nil, nil, false
+		}
+		if call := isYield(not.X); call != nil {
+			return call.Args, rs, true
+		}
+	}
+	return nil, nil, false
+}
+
 // CollectBitTests walks body and returns every if-statement whose condition
 // involves the flag word. Loops over constant tables (and counting loops with
 // constant bounds) are unrolled: their body is interpreted once per row with
-// the loop variables bound to that row.
+// the loop variables bound to that row. A loop over the set bits of the word,
+// or over what another decomposer of the word reports, is unrolled into one
+// implicit test per bit.
 func (ev *Evaluator) CollectBitTests(body ast.Node) *Decomp {
 	d := &Decomp{}
+	if ev.root == nil {
+		ev.root = body
+	}
 	var inside []region
 	within := func(n ast.Node) bool {
 		for _, r := range inside {
@@ -732,24 +1588,57 @@ func (ev *Evaluator) CollectBitTests(body ast.Node) *Decomp {
 		}
 		return false
 	}
-	// scan interprets the statements executed when a test holds
-	scan := func(bt *BitTest, list []ast.Stmt) {
-		for _, st := range list {
+	okBranch := map[ast.Stmt]bool{} // `continue` / `return` statements that are part of a recognised guard
+	var skip map[ast.Stmt]bool      // statements that drive the loop being interpreted
+	emit := func(bt *BitTest, a ast.Expr) {
+		if sv, ok := ev.StringOf(a); ok {
+			bt.Names = append(bt.Names, sv)
+			bt.Emits = append(bt.Emits, Emit{Str: sv, IsStr: true})
+		} else if c, ok := ev.Eval(a).(SConst); ok && c.V.Kind() == constant.Int {
+			bt.Values = append(bt.Values, c.V)
+			bt.Emits = append(bt.Emits, Emit{Int: c.V})
+		} else if id, ok := ast.Unparen(a).(*ast.Ident); ok && ev.Info.Uses[id] != nil {
+			bt.Appended = append(bt.Appended, ev.Info.Uses[id])
+		} else {
+			bt.Other++
+		}
+	}
+	// scan interprets the statements executed when a test holds. iter: the list
+	// is (the rest of) the body of one loop iteration, so `continue` ends it.
+	// The result says that the list was left by such a `continue`.
+	var scan func(bt *BitTest, list []ast.Stmt, iter bool) bool
+	scan = func(bt *BitTest, list []ast.Stmt, iter bool) bool {
+		skipNext := false
+		for si, st := range list {
+			if skipNext {
+				skipNext = false
+				continue
+			}
+			if skip[st] {
+				continue
+			}
+			// `buf[n] = name; n++`: a store into a pre-sized buffer at a running count is an append
+			if as, ok := st.(*ast.AssignStmt); ok && as.Tok == token.ASSIGN && len(as.Lhs) == 1 && len(as.Rhs) == 1 && si+1 < len(list) {
+				if ie, ok := ast.Unparen(as.Lhs[0]).(*ast.IndexExpr); ok {
+					if nid, ok := ast.Unparen(ie.Index).(*ast.Ident); ok {
+						if inc, ok := list[si+1].(*ast.IncDecStmt); ok && inc.Tok == token.INC {
+							if iid, ok := ast.Unparen(inc.X).(*ast.Ident); ok && ev.Info.Uses[iid] != nil && ev.Info.Uses[iid] == ev.Info.Uses[nid] {
+								bt.Acc = append(bt.Acc, types.ExprString(ie.X))
+								emit(bt, as.Rhs[0])
+								skipNext = true
+								continue
+							}
+						}
+					}
+				}
+			}
 			as, ok := st.(*ast.AssignStmt)
 			if ok && len(as.Lhs) == 1 && len(as.Rhs) == 1 {
 				if call, ok := ast.Unparen(as.Rhs[0]).(*ast.CallExpr); ok && isBuiltin(ev.Info, call, "append") && len(call.Args) >= 2 &&
 					types.ExprString(as.Lhs[0]) == types.ExprString(call.Args[0]) && !call.Ellipsis.IsValid() {
 					bt.Acc = append(bt.Acc, types.ExprString(as.Lhs[0]))
 					for _, a := range call.Args[1:] {
-						if sv, ok := ev.StringOf(a); ok {
-							bt.Names = append(bt.Names, sv)
-						} else if c, ok := ev.Eval(a).(SConst); ok && c.V.Kind() == constant.Int {
-							bt.Values = append(bt.Values, c.V)
-						} else if id, ok := ast.Unparen(a).(*ast.Ident); ok && ev.Info.Uses[id] != nil {
-							bt.Appended = append(bt.Appended, ev.Info.Uses[id])
-						} else {
-							bt.Other++
-						}
+						emit(bt, a)
 					}
 					continue
 				}
@@ -757,24 +1646,86 @@ func (ev *Evaluator) CollectBitTests(body ast.Node) *Decomp {
 			if _, ok := st.(*ast.EmptyStmt); ok {
 				continue
 			}
+			// local definitions without effect: resolved where they are used
+			if pureDefine(ev.Info, st) {
+				continue
+			}
 			// names written to a strings.Builder / bytes.Buffer instead of appended to a slice
 			if recv, arg, ok := builderWrite(ev.Info, st); ok {
 				if sv, ok := ev.StringOf(arg); ok {
 					bt.Acc = append(bt.Acc, recv)
 					bt.Names = append(bt.Names, sv)
+					bt.Emits = append(bt.Emits, Emit{Str: sv, IsStr: true})
 					continue
 				}
 			}
-			// `if sb.Len() > 0 { sb.WriteByte('|') }`: a separator between names, not a name
-			if is, ok := st.(*ast.IfStmt); ok && is.Else == nil && is.Init == nil && !HasWord(ev.Eval(is.Cond)) && onlySeparators(ev.Info, is.Body) {
+			// an iterator hands the value to its consumer
+			if args, ret, ok := ev.yieldStmt(st); ok {
+				if ret != nil {
+					okBranch[ret] = true
+				}
+				bt.Acc = append(bt.Acc, "yield")
+				for _, a := range args {
+					emit(bt, a)
+				}
 				continue
+			}
+			if is, ok := st.(*ast.IfStmt); ok {
+				// `if sb.Len() > 0 { sb.WriteByte('|') }`: a separator between names, not a name
+				if is.Else == nil && is.Init == nil && !HasWord(ev.Eval(is.Cond)) && onlySeparators(ev.Info, is.Body) {
+					continue
+				}
+				// a condition on the row alone (is the bit named? is the name empty?): decided per row
+				if is.Init == nil || pureDefine(ev.Info, is.Init) {
+					if b, ok := ev.constCond(is.Cond); ok {
+						bt.RowConds++
+						if iter && isContinue(is.Body) {
+							okBranch[is.Body.List[0]] = true
+						}
+						var branch []ast.Stmt
+						switch {
+						case b:
+							branch = is.Body.List
+						case is.Else != nil:
+							if blk, ok := is.Else.(*ast.BlockStmt); ok {
+								branch = blk.List
+							} else {
+								branch = []ast.Stmt{is.Else}
+							}
+						}
+						if scan(bt, branch, iter) {
+							return true
+						}
+						continue
+					}
+				}
+			}
+			if br, ok := st.(*ast.BranchStmt); ok && iter && br.Tok == token.CONTINUE && br.Label == nil {
+				okBranch[br] = true
+				return true
+			}
+			// leaving the walk in the iteration that stands for one bit
+			if bt.Implicit && iter {
+				if br, ok := st.(*ast.BranchStmt); ok && br.Tok == token.BREAK && br.Label == nil {
+					okBranch[br] = true
+					bt.Cut = "break"
+					return true
+				}
+				if rs, ok := st.(*ast.ReturnStmt); ok && (len(rs.Results) == 0 || ev.yield != nil) {
+					okBranch[rs] = true
+					bt.Cut = "return"
+					return true
+				}
+			}
+			if what := ev.opaqueCall(st); what != "" {
+				bt.Opaque = append(bt.Opaque, what)
 			}
 			bt.Other++
 		}
+		return false
 	}
 	var visit func(n ast.Node, row string, under []string)
 	var visitLoopBody func(b *ast.BlockStmt, row string, under []string)
-	okBranch := map[ast.Stmt]bool{} // `continue` statements that are part of a recognised guard
 	handleIf := func(is *ast.IfStmt, row string, under []string) bool {
 		s := ev.Eval(is.Cond)
 		if !HasWord(s) {
@@ -782,8 +1733,10 @@ func (ev *Evaluator) CollectBitTests(body ast.Node) *Decomp {
 		}
 		bt := &BitTest{If: is, Cond: s, HasElse: is.Else != nil, Row: row, Under: under}
 		bt.Test, bt.Err = AsMaskTest(s)
-		scan(bt, is.Body.List)
-		d.Tests = append(d.Tests, bt)
+		scan(bt, is.Body.List, false)
+		if !bt.vacuous() {
+			d.Tests = append(d.Tests, bt)
+		}
 		inside = append(inside, region{is.Body.Pos(), is.Body.End()})
 		return true
 	}
@@ -793,7 +1746,17 @@ func (ev *Evaluator) CollectBitTests(body ast.Node) *Decomp {
 			return
 		}
 		d.Loops = append(d.Loops, u)
+		u.WordInside = ev.mentionsWord(loop)
+		if u.Producer != nil {
+			d.Helpers = append(d.Helpers, u.Producer)
+			if u.Sub != nil {
+				d.Helpers = append(d.Helpers, u.Sub.Helpers...)
+			}
+		}
 		if u.Why != "" {
+			if !u.Blame && (u.WordInside || u.Producer != nil) {
+				d.Escapes = append(d.Escapes, Problem{loop.Pos(), "a loop that involves the flag word is not resolved to constant rows (" + u.Why + ")"})
+			}
 			visit(lb, row, append(append([]string{}, under...), "a loop that is not resolved to constant rows")) // interpret the body once, unbound
 			return
 		}
@@ -803,8 +1766,28 @@ func (ev *Evaluator) CollectBitTests(body ast.Node) *Decomp {
 				label = row + ", " + label
 			}
 			leave := ev.enter(it)
+			if it.test != nil {
+				// the iteration itself is the test: `if word & bit != 0 { body }`
+				zero := SConst{constant.MakeInt64(0)}
+				bt := &BitTest{If: &ast.IfStmt{If: loop.Pos(), Cond: loopCond(loop), Body: lb}, Test: it.test, Row: label, Under: under, Implicit: true,
+					Cond: SCmp{token.NEQ, SAnd{SWord{}, SConst{it.test.Mask}}, zero}}
+				old := skip
+				skip = u.Skip
+				if it.cut != "" {
+					bt.Cut = it.cut
+				} else {
+					scan(bt, lb.List, true)
+				}
+				skip = old
+				if len(bt.Emits) > 0 || len(bt.Appended) > 0 || bt.Other > 0 || bt.Cut != "" {
+					d.Tests = append(d.Tests, bt)
+				}
+			}
 			visitLoopBody(lb, label, under)
 			leave()
+		}
+		if len(its) > 0 && its[0].test != nil {
+			inside = append(inside, region{lb.Pos(), lb.End()})
 		}
 		// anything that leaves the loop or skips an iteration outside a recognised guard
 		ast.Inspect(lb, func(x ast.Node) bool {
@@ -816,7 +1799,9 @@ func (ev *Evaluator) CollectBitTests(body ast.Node) *Decomp {
 					d.Problems = append(d.Problems, Problem{x.Pos(), "`" + x.Tok.String() + "` inside a loop over table rows: iterations can be skipped or cut short under a condition the rule does not interpret"})
 				}
 			case *ast.ReturnStmt:
-				d.Problems = append(d.Problems, Problem{x.Pos(), "`return` inside a loop over table rows: the remaining rows are not visited"})
+				if !okBranch[x] {
+					d.Problems = append(d.Problems, Problem{x.Pos(), "`return` inside a loop over table rows: the remaining rows are not visited"})
+				}
 			}
 			return true
 		})
@@ -830,8 +1815,10 @@ func (ev *Evaluator) CollectBitTests(body ast.Node) *Decomp {
 					bt := &BitTest{If: is, Cond: SNot{s}, Row: row, Guard: true, Under: under}
 					bt.Test, bt.Err = AsMaskTest(bt.Cond)
 					rest := b.List[i+1:]
-					scan(bt, rest)
-					d.Tests = append(d.Tests, bt)
+					scan(bt, rest, true)
+					if !bt.vacuous() {
+						d.Tests = append(d.Tests, bt)
+					}
 					if len(rest) > 0 {
 						inside = append(inside, region{rest[0].Pos(), b.End()})
 						for _, r := range rest {
@@ -844,6 +1831,26 @@ func (ev *Evaluator) CollectBitTests(body ast.Node) *Decomp {
 			visit(st, row, under)
 		}
 	}
+	merge := func(sd *Decomp, name, row string, enc []string) {
+		for _, bt := range sd.Tests {
+			if bt.Row == "" {
+				bt.Row = "in " + name
+			} else {
+				bt.Row = "in " + name + ": " + bt.Row
+			}
+			if row != "" {
+				bt.Row = row + ", " + bt.Row
+			}
+			bt.Under = append(append([]string{}, enc...), bt.Under...)
+		}
+		d.Tests = append(d.Tests, sd.Tests...)
+		d.Placeholders = append(d.Placeholders, sd.Placeholders...)
+		d.Loops = append(d.Loops, sd.Loops...)
+		d.Problems = append(d.Problems, sd.Problems...)
+		d.Escapes = append(d.Escapes, sd.Escapes...)
+	}
+	closures := ev.localClosures(body)
+	producers := ev.producerCalls(body)
 	visit = func(n ast.Node, row string, under []string) {
 		var stack []ast.Node
 		// enclosing returns the uninterpreted constructs between n and the node on top of the stack
@@ -879,26 +1886,46 @@ func (ev *Evaluator) CollectBitTests(body ast.Node) *Decomp {
 				descend = false
 			case *ast.IfStmt:
 				handleIf(x, row, enclosing())
+			case *ast.FuncLit:
+				// the body of a local closure is interpreted where it is called
+				switch {
+				case closures[x] != nil:
+					descend = false
+				case ev.mentionsWord(x):
+					d.Escapes = append(d.Escapes, Problem{x.Pos(), "the flag word is captured by a function literal the analysis does not follow"})
+					descend = false
+				}
 			case *ast.CallExpr:
+				if producers[x] {
+					break // interpreted by the loop that ranges over what it returns
+				}
+				// len(word.GetFlags()) / cap(…): only the size is used (pre-sizing a
+				// buffer); what the callee reports does not reach the result here
+				if len(stack) >= 2 {
+					if outer, ok := stack[len(stack)-2].(*ast.CallExpr); ok && (isBuiltin(ev.Info, outer, "len") || isBuiltin(ev.Info, outer, "cap")) {
+						break
+					}
+				}
 				if sub, fd := ev.enterHelper(x); sub != nil {
 					enc := enclosing()
-					sd := sub.CollectBitTests(fd.Body)
-					for _, bt := range sd.Tests {
-						if bt.Row == "" {
-							bt.Row = "in " + fd.Name.Name
-						} else {
-							bt.Row = "in " + fd.Name.Name + ": " + bt.Row
+					var hbody ast.Node = fd.Body
+					if returnsIterator(sub.Info, fd) {
+						// an iterator consumed whole (slices.Collect, slices.Sorted, …): what it
+						// yields is what it reports
+						if b, why := iteratorBody(sub, fd); why == "" {
+							hbody = b
 						}
-						if row != "" {
-							bt.Row = row + ", " + bt.Row
-						}
-						bt.Under = append(append([]string{}, enc...), bt.Under...)
 					}
-					d.Tests = append(d.Tests, sd.Tests...)
-					d.Placeholders = append(d.Placeholders, sd.Placeholders...)
-					d.Loops = append(d.Loops, sd.Loops...)
-					d.Problems = append(d.Problems, sd.Problems...)
+					sd := sub.CollectBitTests(hbody)
+					merge(sd, fd.Name.Name, row, enc)
 					d.Helpers = append(append(d.Helpers, fd), sd.Helpers...)
+				} else if sub, fl, name := ev.enterClosure(x, closures); sub != nil {
+					enc := enclosing()
+					sd := sub.CollectBitTests(fl.Body)
+					merge(sd, name, row, enc)
+					d.Helpers = append(d.Helpers, sd.Helpers...)
+				} else if why := ev.wordEscapesInto(x); why != "" {
+					d.Escapes = append(d.Escapes, Problem{x.Pos(), why})
 				}
 			}
 			if !descend {
@@ -908,6 +1935,9 @@ func (ev *Evaluator) CollectBitTests(body ast.Node) *Decomp {
 		})
 	}
 	visit(body, "", nil)
+	if ev.wordLost != "" {
+		d.Escapes = append(d.Escapes, Problem{body.Pos(), ev.wordLost})
+	}
 	// placeholders: constant strings produced outside the bit tests
 	ast.Inspect(body, func(n ast.Node) bool {
 		switch n := n.(type) {
@@ -933,6 +1963,19 @@ func (ev *Evaluator) CollectBitTests(body ast.Node) *Decomp {
 		return true
 	})
 	return d
+}
+
+// loopCond renders the header condition of a loop for diagnostics.
+func loopCond(s ast.Stmt) ast.Expr {
+	switch s := s.(type) {
+	case *ast.ForStmt:
+		if s.Cond != nil {
+			return s.Cond
+		}
+	case *ast.RangeStmt:
+		return s.X
+	}
+	return &ast.Ident{Name: "loop"}
 }
 
 // builderWrite recognises `b.WriteString(x)` on a strings.Builder / bytes.Buffer.
@@ -1017,7 +2060,18 @@ func (ev *Evaluator) enterHelper(call *ast.CallExpr) (*Evaluator, *ast.FuncDecl)
 	if tv, ok := ev.Info.Types[call.Fun]; ok && (tv.IsType() || tv.IsBuiltin()) {
 		return nil, nil
 	}
-	fn := StaticCallee(ev.Info, call)
+	fun := call.Fun
+	if ix, ok := ast.Unparen(fun).(*ast.IndexExpr); ok { // explicit instantiation f[T](…)
+		if tv, ok := ev.Info.Types[ix.X]; ok && tv.Type != nil {
+			if _, isSig := tv.Type.Underlying().(*types.Signature); isSig {
+				fun = ix.X
+			}
+		}
+	}
+	if ix, ok := ast.Unparen(fun).(*ast.IndexListExpr); ok {
+		fun = ix.X
+	}
+	fn := StaticCallee(ev.Info, &ast.CallExpr{Fun: fun})
 	if fn == nil {
 		return nil, nil
 	}
@@ -1037,8 +2091,18 @@ func (ev *Evaluator) enterHelper(call *ast.CallExpr) (*Evaluator, *ast.FuncDecl)
 	env := map[types.Object]Sym{}
 	bind := map[types.Object]Val{}
 	word := false
+	lost := ""
+	var lostParam, sink types.Object
 	give := func(param types.Object, arg ast.Expr) {
 		if param == nil {
+			return
+		}
+		// a callback that only collects what it is given (`func(name string) { out =
+		// append(out, name) }`): calling it is reporting the value
+		if _, isFunc := param.Type().Underlying().(*types.Signature); isFunc {
+			if ev.isSink(arg) && sink == nil && !assigned(info, fd.Body, param) {
+				sink = param
+			}
 			return
 		}
 		s := ev.Eval(arg)
@@ -1046,7 +2110,12 @@ func (ev *Evaluator) enterHelper(call *ast.CallExpr) (*Evaluator, *ast.FuncDecl)
 			word = true
 		}
 		if assigned(info, fd.Body, param) {
-			return // the callee changes its parameter: leave it uninterpreted
+			// the callee changes its parameter: leave it uninterpreted (unless the
+			// writes turn out to be the steps of a walk over its set bits)
+			if _, isWord := s.(SWord); isWord {
+				lost, lostParam = fn.Name()+" changes its own copy of the flag word", param
+			}
+			return
 		}
 		if !hasUnknown(s) {
 			env[param] = s
@@ -1057,7 +2126,7 @@ func (ev *Evaluator) enterHelper(call *ast.CallExpr) (*Evaluator, *ast.FuncDecl)
 		}
 	}
 	if sig.Recv() != nil {
-		sel, ok := ast.Unparen(call.Fun).(*ast.SelectorExpr)
+		sel, ok := ast.Unparen(fun).(*ast.SelectorExpr)
 		if !ok {
 			return nil, nil
 		}
@@ -1078,7 +2147,54 @@ func (ev *Evaluator) enterHelper(call *ast.CallExpr) (*Evaluator, *ast.FuncDecl)
 		return nil, nil
 	}
 	return &Evaluator{Info: info, Env: env, Bind: bind, Defs: SingleDefs(info, fd.Body), OkDefs: CommaOkDefs(info, fd.Body), Source: ev.Source, Vars: ev.Vars,
-		Tables: ev.Tables, depth: ev.depth + 1}, fd
+		Tables: ev.Tables, depth: ev.depth + 1, wordLost: lost, lostParam: lostParam, yield: sink}, fd
+}
+
+// isSink: e is a function literal (or a local defined once as one) whose body
+// only appends its parameters to an accumulator / writes them to a builder.
+func (ev *Evaluator) isSink(e ast.Expr) bool {
+	e = ast.Unparen(e)
+	if id, ok := e.(*ast.Ident); ok {
+		rhs, ok := ev.Defs[ev.Info.Uses[id]]
+		if !ok {
+			return false
+		}
+		e = ast.Unparen(rhs)
+	}
+	fl, ok := e.(*ast.FuncLit)
+	if !ok || fl.Type.Params == nil || len(fl.Body.List) != 1 {
+		return false
+	}
+	params := map[types.Object]bool{}
+	for _, f := range fl.Type.Params.List {
+		for _, n := range f.Names {
+			if o := ev.Info.Defs[n]; o != nil {
+				params[o] = true
+			}
+		}
+	}
+	isParam := func(x ast.Expr) bool {
+		id, ok := ast.Unparen(x).(*ast.Ident)
+		return ok && params[ev.Info.Uses[id]]
+	}
+	st := fl.Body.List[0]
+	if as, ok := st.(*ast.AssignStmt); ok && len(as.Lhs) == 1 && len(as.Rhs) == 1 {
+		call, ok := ast.Unparen(as.Rhs[0]).(*ast.CallExpr)
+		if !ok || !isBuiltin(ev.Info, call, "append") || len(call.Args) < 2 || call.Ellipsis.IsValid() ||
+			types.ExprString(as.Lhs[0]) != types.ExprString(call.Args[0]) {
+			return false
+		}
+		for _, a := range call.Args[1:] {
+			if !isParam(a) {
+				return false
+			}
+		}
+		return true
+	}
+	if _, arg, ok := builderWrite(ev.Info, st); ok {
+		return isParam(arg)
+	}
+	return false
 }
 
 // MapRanges returns the range statements of body whose operand is a map.
@@ -1205,110 +2321,16 @@ func totalCompare(info *types.Info, e ast.Expr) bool {
 	return a != nil && b != nil && a != b && ((a == ps[0] && b == ps[1]) || (a == ps[1] && b == ps[0]))
 }
 
-// OrderAfterRange decides that the iteration order of the map range rs (a
-// statement of the top-level list of body) cannot reach the function's result:
-// every variable written inside the loop is passed to sort.* before any other
-// use. status: "ok", "fail" (order-dependent use found) or "undecided".
+// OrderAfterRange decides that the iteration order of the map range rs cannot
+// reach the function's result: every variable written inside the loop is
+// passed to sort.* before any other use. status: "ok", "fail" (order-dependent
+// use found) or "undecided". See OrderAfter for the general form.
 func OrderAfterRange(info *types.Info, body *ast.BlockStmt, rs *ast.RangeStmt) (status, reason string) {
-	at := -1
-	for i, s := range body.List {
-		if s == rs {
-			at = i
-		}
+	st, why, _ := OrderAfter(info, body, &MapOrderSite{Stmt: rs, Range: rs, X: rs.X})
+	if st == "returned" {
+		st = "fail"
 	}
-	if at < 0 {
-		return "undecided", "the map range is not a top-level statement of the function"
-	}
-	tainted := map[types.Object]bool{}
-	why := ""
-	ast.Inspect(rs.Body, func(n ast.Node) bool {
-		switch n := n.(type) {
-		case *ast.ReturnStmt:
-			for _, r := range n.Results {
-				if tv, ok := info.Types[r]; !ok || tv.Value == nil {
-					why = "returns a non-constant from inside the map iteration"
-				}
-			}
-		case *ast.AssignStmt:
-			for _, l := range n.Lhs {
-				id, ok := ast.Unparen(l).(*ast.Ident)
-				if !ok {
-					why = "the loop body writes through " + types.ExprString(l)
-					continue
-				}
-				if id.Name == "_" {
-					continue
-				}
-				if o := info.Uses[id]; o != nil && (o.Pos() < rs.Pos() || o.Pos() > rs.End()) {
-					tainted[o] = true
-				}
-			}
-		case *ast.IncDecStmt:
-			why = "the loop body counts with " + types.ExprString(n.X)
-		case *ast.BranchStmt:
-			if n.Tok == token.BREAK || n.Tok == token.GOTO {
-				why = "the loop is left early (" + n.Tok.String() + ")"
-			}
-		}
-		return true
-	})
-	if why != "" {
-		return "undecided", why
-	}
-	sorted := map[types.Object]bool{}
-	for _, st := range body.List[at+1:] {
-		if es, ok := st.(*ast.ExprStmt); ok {
-			if call, ok := es.X.(*ast.CallExpr); ok && len(call.Args) >= 1 {
-				if fn := StaticCallee(info, call); isSortFunc(fn) {
-					a := ast.Unparen(call.Args[0])
-					if c, ok := a.(*ast.CallExpr); ok && len(c.Args) == 1 { // sort.Sort(sort.StringSlice(v))
-						if tv, ok := info.Types[c.Fun]; ok && tv.IsType() {
-							a = ast.Unparen(c.Args[0])
-						}
-					}
-					if id, ok := a.(*ast.Ident); ok {
-						if o := info.Uses[id]; o != nil && tainted[o] && !sorted[o] {
-							switch fn.Name() {
-							case "Slice", "SliceStable":
-								fl, ok := ast.Unparen(call.Args[1]).(*ast.FuncLit)
-								if fn.Pkg().Path() != "sort" || !ok || !totalLess(info, fl, o) {
-									return "undecided", "cannot decide that the comparison passed to " + fn.FullName() + " is a total order on the elements"
-								}
-							case "SortFunc", "SortStableFunc":
-								if len(call.Args) != 2 || !totalCompare(info, call.Args[1]) {
-									return "undecided", "cannot decide that the comparison passed to " + fn.FullName() + " is a total order on the elements"
-								}
-							}
-							sorted[o] = true
-							continue
-						}
-					}
-				}
-			}
-		}
-		for o := range tainted {
-			if sorted[o] || !mentions(info, st, o) {
-				continue
-			}
-			// alias: w := v / w = v
-			if as, ok := st.(*ast.AssignStmt); ok && len(as.Lhs) == 1 && len(as.Rhs) == 1 {
-				if rid, ok := ast.Unparen(as.Rhs[0]).(*ast.Ident); ok && info.Uses[rid] == o {
-					if lid, ok := ast.Unparen(as.Lhs[0]).(*ast.Ident); ok {
-						lo := info.Defs[lid]
-						if lo == nil {
-							lo = info.Uses[lid]
-						}
-						if lo != nil {
-							tainted[lo] = true
-							continue
-						}
-					}
-				}
-			}
-			return "fail", fmt.Sprintf("%s is filled in map-iteration order and is used by `%s` before any sort.* call on it", o.Name(), stmtString(st))
-		}
-	}
-	return "ok", ""
+	return st, why
 }
 
 func stmtString(s ast.Stmt) string {
